@@ -657,3 +657,157 @@ pub fn stub_variant_cases(st: &mut S16) {
         }
     }
 }
+
+type PeerEnd = tarpc::transport::channel::Channel<Response<String>, ClientMessage<String>>;
+/// one server poll (up to 3 items), then the peer reads what is there (at most 2 responses)
+fn flood_round<S, E>(
+    reqs: &mut Pin<Box<S>>,
+    peer: &mut PeerEnd,
+    held: &mut Vec<tarpc::server::InFlightRequest<String, String>>,
+    cx: &mut Context<'_>,
+    refused: &mut usize,
+    probe_answered: &mut bool,
+) -> Result<(), String>
+where
+    S: futures::Stream<Item = Result<tarpc::server::InFlightRequest<String, String>, E>>,
+    E: std::fmt::Display,
+{
+    use futures::Stream;
+    for _ in 0..3 {
+        match reqs.as_mut().poll_next(cx) {
+            Poll::Ready(Some(Ok(r))) => held.push(r),
+            Poll::Ready(Some(Err(e))) => return Err(format!("the server channel reported {e} and the connection is gone")),
+            Poll::Ready(None) => return Err("the server channel ended".into()),
+            Poll::Pending => break,
+        }
+    }
+    for _ in 0..2 {
+        match Pin::new(&mut *peer).poll_next(cx) {
+            Poll::Ready(Some(Ok(resp))) => {
+                if resp.request_id == 9_999 {
+                    *probe_answered = resp.message.is_ok();
+                } else if resp.message.is_err() {
+                    *refused += 1;
+                }
+            }
+            Poll::Ready(Some(Err(e))) => return Err(format!("the peer's read failed: {e}")),
+            Poll::Ready(None) => return Err("the peer sees end-of-stream".into()),
+            Poll::Pending => break,
+        }
+    }
+    Ok(())
+}
+
+/// A channel with a request limit over tarpc's own bounded in-memory transport: one request is held
+/// in flight, then a flood of further well-formed requests (fresh ids, or duplicates of one
+/// over-limit id) arrives in one go while the peer is slow to read its responses. Every one of them
+/// is refused, none of this ends the connection, and once the held request is cancelled a probe is
+/// served. (The peer reads one response between any two polls of the server at the latest.)
+pub fn limited_bounded_flood_cases(st: &mut S16, n: usize) {
+    use futures::{Sink, Stream};
+    use tarpc::server::{BaseChannel, Channel};
+    use tarpc::Request;
+    for cap in [0usize, 1, 2] {
+        for limit in [1usize, 2] {
+            for flood in 1..=n {
+                for dup in [false, true] {
+                    st.evals += 1;
+                    st.distinct.insert(h(&("limited-bounded-flood", cap, limit, flood, dup)));
+                    let label = format!("limit {limit} over bounded({cap}): {limit} requests held in flight, then {flood} more {} in one go", if dup { "copies of one id" } else { "with fresh ids" });
+                    let r = catch_unwind(AssertUnwindSafe(|| -> Result<(), String> {
+                        let (mut peer, server_end) = tarpc::transport::channel::bounded::<Response<String>, ClientMessage<String>>(cap);
+                        let mut reqs = Box::pin(BaseChannel::with_defaults(server_end).max_concurrent_requests(limit).requests());
+                        let waker = futures::task::noop_waker();
+                        let mut cx = Context::from_waker(&waker);
+                        let mk = |id: u64| {
+                            let mut ctx = context::current();
+                            ctx.deadline = std::time::Instant::now() + Duration::from_secs(3600);
+                            ClientMessage::Request(Request { context: ctx, id, message: "x".to_string() })
+                        };
+                        let send = |peer: &mut PeerEnd, m: ClientMessage<String>, cx: &mut Context<'_>| -> Result<(), String> {
+                            for _ in 0..4 {
+                                if let Poll::Ready(r) = Pin::new(&mut *peer).poll_ready(cx) {
+                                    r.map_err(|e| format!("the peer cannot send: {e}"))?;
+                                    return Pin::new(&mut *peer).start_send(m).map_err(|e| format!("the peer cannot send: {e}"));
+                                }
+                            }
+                            Err("machinery: the peer's sender stays full".into())
+                        };
+                        let mut held = vec![];
+                        let mut refused = 0usize;
+                        let mut probe_answered = false;
+                        for id in 0..limit as u64 {
+                            send(&mut peer, mk(id), &mut cx)?;
+                            flood_round(&mut reqs, &mut peer, &mut held, &mut cx, &mut refused, &mut probe_answered)?;
+                        }
+                        if held.len() != limit {
+                            return Err(format!("machinery: {} of {limit} requests were handed over", held.len()));
+                        }
+                        // the flood: as many as the peer's sender takes at once, the rest as room returns
+                        let mut sent = 0usize;
+                        for _ in 0..(8 * flood + 16) {
+                            while sent < flood {
+                                let id = if dup { 100 } else { 100 + sent as u64 };
+                                match Pin::new(&mut peer).poll_ready(&mut cx) {
+                                    Poll::Ready(Ok(())) => {
+                                        Pin::new(&mut peer).start_send(mk(id)).map_err(|e| format!("the peer cannot send: {e}"))?;
+                                        sent += 1;
+                                    }
+                                    Poll::Ready(Err(e)) => return Err(format!("the peer cannot send: {e}")),
+                                    Poll::Pending => break,
+                                }
+                            }
+                            flood_round(&mut reqs, &mut peer, &mut held, &mut cx, &mut refused, &mut probe_answered)?;
+                            if sent == flood && refused == flood {
+                                break;
+                            }
+                        }
+                        if held.len() != limit {
+                            return Err(format!("{} requests were handed to the application with a limit of {limit}", held.len()));
+                        }
+                        if refused != flood {
+                            return Err(format!("{refused} of {flood} excess requests were refused"));
+                        }
+                        // the held requests are answered; then the probe must be served
+                        let first: Vec<_> = held.drain(..).collect();
+                        for r in first {
+                            let f = r.execute(tarpc::server::serve(|_, s: String| async move { Ok(s) }));
+                            let mut f = Box::pin(f);
+                            for _ in 0..4 {
+                                if f.as_mut().poll(&mut cx).is_ready() {
+                                    break;
+                                }
+                                flood_round(&mut reqs, &mut peer, &mut held, &mut cx, &mut refused, &mut probe_answered)?;
+                            }
+                        }
+                        for _ in 0..6 {
+                            flood_round(&mut reqs, &mut peer, &mut held, &mut cx, &mut refused, &mut probe_answered)?;
+                        }
+                        send(&mut peer, mk(9_999), &mut cx)?;
+                        for _ in 0..8 {
+                            flood_round(&mut reqs, &mut peer, &mut held, &mut cx, &mut refused, &mut probe_answered)?;
+                            for r in held.drain(..) {
+                                let f = r.execute(tarpc::server::serve(|_, s: String| async move { Ok(s) }));
+                                let mut f = Box::pin(f);
+                                let _ = f.as_mut().poll(&mut cx);
+                            }
+                            if probe_answered {
+                                return Ok(());
+                            }
+                        }
+                        Err("the probe request after the flood was not served".into())
+                    }));
+                    match r {
+                        Err(_) => {
+                            let p = take_panic();
+                            failure(st, "C16-server-panic/limited-bounded-flood".into(), format!("{label}: {p}"));
+                        }
+                        Ok(Err(m)) if m.starts_with("machinery") => failure(st, "C16-machinery".into(), format!("{label}: {m}")),
+                        Ok(Err(m)) => failure(st, "C16-server-stops-serving".into(), format!("{label}: {m}")),
+                        Ok(Ok(())) => {}
+                    }
+                }
+            }
+        }
+    }
+}
